@@ -21,10 +21,10 @@ type Scope struct {
 	// Glyph: per-glyph decisions (subroutine factoring, hint replacement,
 	// dotsection, sbw form, stem order).
 	Glyph bool
-	// Positions: per-command decisions (h/v/r form of every path command that
-	// has a choice, number form of every operand-carrying command, flex at
-	// every legal position).
-	Positions bool
+	// Per-command decisions: Flex = flex at every legal position; Forms = h/v
+	// vs r form of every path command that has a choice; Numbers = number
+	// form of every operand-carrying command.
+	Flex, Forms, Numbers bool
 	// Unusual: additional accepted-but-odd choices used by C10 only (no
 	// explicit closepath, no or short Encoding).
 	Unusual bool
@@ -78,7 +78,7 @@ func Drive(c Chooser, m *t1model.Font, sc Scope) *Options {
 				gopt.NoClosepath = c.Deviate(2) == 1
 			}
 		}
-		if sc.Positions {
+		if sc.Flex {
 			for _, i := range l.FlexAt {
 				if c.Deviate(2) == 1 {
 					if gopt.Flex == nil {
@@ -87,6 +87,8 @@ func Drive(c Chooser, m *t1model.Font, sc Scope) *Options {
 					gopt.Flex[i] = true
 				}
 			}
+		}
+		if sc.Forms {
 			for _, i := range l.Compact {
 				if c.Deviate(2) == 1 {
 					if gopt.GeneralForm == nil {
@@ -95,6 +97,8 @@ func Drive(c Chooser, m *t1model.Font, sc Scope) *Options {
 					gopt.GeneralForm[i] = true
 				}
 			}
+		}
+		if sc.Numbers {
 			for i := 0; i < l.NumCmds; i++ {
 				if f := c.Deviate(numForms); f != 0 {
 					if gopt.NumForm == nil {
